@@ -1,5 +1,5 @@
 CONSTANTS
-  NSet = {1, 2, 3}
+  NSet = {0, 1, 2, 3}
   MSSet = {0, 2, 4}
   CDSet = {0, 7}
   IVSet = {2}
